@@ -5,7 +5,7 @@
    shared.PlannerContext, and LineFilterPlanner.Val (overwritten by Process) are threaded
    explicitly, so that executing one plan object several times (live tail) is expressible. *)
 From Coq Require Import List ZArith NArith String Ascii Bool.
-From Qryn Require Import lib.Strs lib.CivilDate model.Sql model.SqlRender model.Logql.
+From Qryn Require Import lib.Strs lib.CivilDate model.Sql model.SqlRender model.Logql model.LogqlRegexp.
 Import ListNotations.
 Open Scope string_scope.
 
@@ -382,14 +382,15 @@ Fixpoint process (p : planner) (c : pctx) (st : pst) {struct p} : res (select * 
       let req1 := set_cols sel req in
       Some (set_cols (patch_col (s_cols req1) "fingerprint" (fun _ => fp_of_labels)) req1, st1, PParserP fn params main')
     | PRegexp =>
-      (* Vals[0] parsed by the participle grammar of planner_parser_regexp.go: the oracle is carried in pp_path
-         of the first parameter as ast.String() :: collectGroupNames; no parameter = index out of range *)
+      (* Vals[0] parsed by the participle grammar of planner_parser_regexp.go, transcribed in model/LogqlRegexp.v
+         (re_plan = ast.String(), ast.collectGroupNames(nil); pp_path of the parameter still carries the same two values
+         as computed by the Go functions, it is not read any more); no parameter = index out of range *)
       do (req, st1, main') <- process main c st;
       match params with
       | [] => None
       | p0 :: _ =>
-        match pp_path p0 with
-        | Some (re :: names) =>
+        match re_plan (pp_val p0) with
+        | Some (re, names) =>
           let req1 := set_cols (patch_col (s_cols req) "labels" (fun object => Fn "mapUpdate" [object; regex_map names re])) req in
           Some (set_cols (patch_col (s_cols req1) "fingerprint" (fun _ => fp_of_labels)) req1, st1, PParserP fn params main')
         | _ => None
